@@ -23,21 +23,39 @@ def to_smt(hyps, goal):
 
 
 def _cli(smt, timeout_s):
-    """try the CLI solvers on an smt2 text; -> ('unsat'|'sat'|'unknown', backend)"""
+    """portfolio of the CLI solvers on an smt2 text (run concurrently, first decisive answer wins);
+    -> ('unsat'|'sat'|'unknown', backend)"""
     with tempfile.NamedTemporaryFile('w', suffix='.smt2', delete=False) as f:
         f.write('(set-logic ALL)\n' + smt.replace('(check-sat)', '') + '\n(check-sat)\n')
         path = f.name
+    procs = []
     try:
-        for backend, cmd in (('z3-4.8-cli', ['/usr/bin/z3', f'-T:{max(1, int(timeout_s))}', path]),
-                             ('cvc5-cli', ['/usr/bin/cvc5', f'--tlimit={int(timeout_s * 1000)}', '--strings-exp', path])):
+        for backend, cmd in (('cvc5-cli', ['/usr/bin/cvc5', f'--tlimit={int(timeout_s * 1000)}', '--strings-exp', path]),
+                             ('z3-4.8-cli', ['/usr/bin/z3', f'-T:{max(1, int(timeout_s))}', path])):
             try:
-                out = subprocess.run(cmd, capture_output=True, text=True, timeout=timeout_s + 5).stdout.strip().split('\n')[0]
-            except (subprocess.TimeoutExpired, OSError):
-                continue
-            if out in ('unsat', 'sat'):
-                return out, backend
+                procs.append((backend, subprocess.Popen(cmd, stdout=subprocess.PIPE, stderr=subprocess.DEVNULL, text=True)))
+            except OSError:
+                pass
+        deadline = time.time() + timeout_s + 5
+        pending = list(procs)
+        while pending and time.time() < deadline:
+            for item in list(pending):
+                backend, p = item
+                if p.poll() is not None:
+                    pending.remove(item)
+                    out = (p.stdout.read() or '').strip().split('\n')[0]
+                    if out in ('unsat', 'sat'):
+                        return out, backend
+            time.sleep(0.05)
         return 'unknown', None
     finally:
+        for _, p in procs:
+            if p.poll() is None:
+                p.kill()
+            try:
+                p.stdout.close()
+            except Exception:  # noqa
+                pass
         os.unlink(path)
 
 
@@ -71,7 +89,7 @@ def _work(job):
         else:
             hyps2, goal2 = hyps, goal
         s = z3.Solver()
-        s.set('timeout', timeout_ms)
+        s.set('timeout', min(timeout_ms, 10000) if fallback else timeout_ms)
         s.set('random_seed', 7)
         for h in hyps2:
             s.add(h)
